@@ -90,6 +90,14 @@ TOTAL = {
 del TOTAL["Iterator::sum"]
 
 
+# integer methods that cannot panic for any argument (wrapping/saturating/checked/overflowing families, bit counting, byte
+# conversions, comparisons); `pow`, `abs`, `neg`, `div_euclid`, `rem_euclid`, `next_power_of_two` are NOT here
+TOTAL_RE = re.compile(r"^<impl (?:u|i)(?:8|16|32|64|128|size)>::(?:saturating_\w+|wrapping_(?:add|sub|mul|neg|shl|shr)|checked_\w+|overflowing_\w+|"
+                      r"count_ones|count_zeros|leading_zeros|trailing_zeros|leading_ones|trailing_ones|swap_bytes|reverse_bits|rotate_left|rotate_right|"
+                      r"to_[lbn]e_bytes|from_[lbn]e_bytes|to_le|to_be|from_le|from_be|min|max|clamp|abs_diff|is_power_of_two|signum|is_positive|is_negative|"
+                      r"unsigned_abs|cast_signed|cast_unsigned)$|^<impl f(?:32|64)>::\w+$|^uom::")
+
+
 class Scope:
     def __init__(self, prog, bodies, census_only):
         self.prog = prog
@@ -163,7 +171,7 @@ def run_scope(prog, res, scope, rules, audited_rules=(), prefix="C01", undecided
                 continue
             if callee.startswith(("core::fmt::", "std::fmt::", "alloc::fmt::")) or s.startswith(("fmt::", "Arguments::")) or s == "fmt::format":
                 continue
-            if s in TOTAL:
+            if s in TOTAL or TOTAL_RE.match(s):
                 continue
             if r.startswith(("alpha_g_", "<alpha_g_")):
                 # workspace item without MIR in the facts (trait method resolved to a derive etc.)
